@@ -25,6 +25,7 @@ from typing import Any
 from typing import ClassVar
 
 from numpy import argmax
+from numpy import asarray
 from numpy import concatenate
 from numpy import full
 from numpy import tile
@@ -236,15 +237,19 @@ class CenteredDifferences(BaseGradientApproximator):
             lower_bounds = normalize_vect(lower_bounds)
             upper_bounds = normalize_vect(upper_bounds)
 
+        # Do not perturb a component in a direction leading out of its bounds.
+        input_indices = list(input_indices)
+        step = asarray(step)
         steps_plus = where(
-            input_perturbations[input_indices, range(n_indices)] >= upper_bounds,
+            input_perturbations[input_indices, range(n_indices)] + step
+            > upper_bounds[input_indices],
             0,
             step,
         )
         input_perturbations[input_indices, range(n_indices)] += steps_plus
         steps_minus = where(
-            input_perturbations[input_indices, range(n_indices, 2 * n_indices)]
-            <= lower_bounds,
+            input_perturbations[input_indices, range(n_indices, 2 * n_indices)] - step
+            < lower_bounds[input_indices],
             0,
             -step,
         )
